@@ -145,8 +145,35 @@ def run_harnesses(root, repo, harnesses, target_dir, jobs=8, timeout=1500):
 
 
 def native_replay(root, repo, pb):
-    """run the recorded any()-values through the same harness body natively (replay crate); see replay/README"""
-    if not pb:
+    """run Kani's counterexample natively against the real crates: the generated concrete-playback unit test (the harness
+    body fed with the recorded kani::any() values) is appended to the harness module of a private copy of the harness crate
+    and executed with `cargo kani playback` (ordinary rustc build, no model checker involved)."""
+    if not pb or not pb.get('test'):
         return None
-    return dict(note='concrete values of kani::any() in call order', values=pb.get('values'), harness=pb.get('harness'),
-                generated_test=pb.get('test'))
+    work = os.path.join(root, '.work', 'replay-kani')
+    crate = os.path.join(work, 'kani-crate')
+    prepare_crate(root, repo, crate)
+    mod = pb['harness'].split('::')[0]
+    mfile = os.path.join(crate, 'src', mod + '.rs')
+    m = re.search(r'fn (kani_concrete_playback_\w+)', pb['test'])
+    if not os.path.exists(mfile) or not m:
+        return dict(error='cannot place the playback test', harness=pb.get('harness'))
+    open(mfile, 'a').write('\n' + pb['test'] + '\n')
+    env = dict(os.environ, CARGO_NET_OFFLINE='true', CARGO_TARGET_DIR=os.path.join(work, 'target'), RUST_BACKTRACE='0')
+    cmd = ['cargo', 'kani', 'playback', '-Z', 'concrete-playback', '--', m.group(1)]
+    try:
+        p = subprocess.run(cmd, cwd=crate, capture_output=True, text=True, timeout=900, env=env)
+        out = p.stdout + '\n' + p.stderr
+    except subprocess.TimeoutExpired:
+        return dict(error='native playback timed out', harness=pb.get('harness'))
+    pm = re.search(r"panicked at ([^\n]*):\n([^\n]*)", out)
+    res = dict(harness=pb.get('harness'), values=pb.get('values'), cmd='cd %s && %s' % (crate, ' '.join(cmd)),
+               generated_test=pb['test'])
+    if 'test result: FAILED' in out or pm:
+        res.update(native_result='the real code fails on this input', panic_location=pm.group(1) if pm else None,
+                   panic_message=pm.group(2) if pm else None)
+    elif 'test result: ok' in out:
+        res.update(native_result='the native run passed (the counterexample depends on something only the model checker sees, e.g. an out-of-bounds read that does not trap natively)')
+    else:
+        res.update(native_result='native playback could not be built/run', tail=out[-1500:])
+    return res
